@@ -40,10 +40,7 @@ Definition siphon_persistence_condition (G : bgraph) (max_size : option nat) (su
 Definition persistence_of (o : option (list (list nat))) (supports : list (list nat)) : option bool :=
   match o with None => None | Some s => Some (persistence_verdict s supports) end.
 
-Definition run_net_p (n : nat) (rs : list rxn) (und : bool) (k : nat) (cands : list (list nat)) (order : list nat)
-           (supports : list (list nat)) : tok :=
-  let G0 := with_species_order order (bipartite_of n rs) in
-  let G := if und then orient_undirected (undirected_view G0) else G0 in
+Definition run_graph_p (G : bgraph) (k : nat) (cands : list (list nat)) (supports : list (list nat)) : tok :=
   if split_ok G then
     let sns := species_nodes_sorted G in
     let rn := g_reactions G in
@@ -60,6 +57,12 @@ Definition run_net_p (n : nat) (rs : list rxn) (und : bool) (k : nat) (cands : l
         tlist tnset (minimal_sets cands);
         L [topt tbool (persistence_of s_all supports); topt tbool (persistence_of s_k supports)] ]
   else L [I 0%Z].
+
+Definition run_net_p (n : nat) (rs : list rxn) (und : bool) (k : nat) (cands : list (list nat)) (order : list nat)
+           (supports : list (list nat)) : tok :=
+  let G0 := with_species_order order (bipartite_of n rs) in
+  let G := if und then orient_undirected (undirected_view G0) else G0 in
+  run_graph_p G k cands supports.
 
 (** * PetriAnalyzer with its persistence field (analyzer.py): check_persistence() stores the verdict for the network as it is at that
     moment, compute_all() = compute_semiflows().compute_siphons_traps().check_persistence() (the first step raises on a network without
